@@ -157,9 +157,11 @@ class BlockReversed:
 
     def __call__(self, s, n=None):
         d = self.d
-        assert isinstance(n, int) and n % d == 0
         out = self.prf(s, n)
-        return [out[h * d + (d - 1 - j)] for h in range(n // d) for j in range(d)]
+        if not isinstance(n, int):
+            return out
+        full = n // d * d
+        return [out[h * d + (d - 1 - j)] for h in range(n // d) for j in range(d)] + out[full:]
 
 
 class Fail(Exception):
